@@ -91,7 +91,9 @@ def c20_cases(draw):
     return {'enc': 'utf-8' if text_mode else None, 'stream': data, 'cuts': cuts, 'p': p, 'flags': flags,
             'ignorecase': draw(st.booleans()), 'tail': draw(st.sampled_from(['eof', 'timeout'])),
             'pending': pend, 'exact': ''.join(draw(st.lists(st.sampled_from(syms), min_size=0, max_size=2))),
-            'bad': draw(st.sampled_from(['int', 'float', 'none', 'nested', 'wrongstr', 'object', 'class'])),
+            'bad': draw(st.sampled_from(['int', 'float', 'none', 'nested', 'nested', 'wrongstr', 'wrongstr', 'object', 'class'])),
+            # the text carried by the invalid nested list / wrong-type string (it ends up in the error message)
+            'badtext': draw(st.sampled_from(['a', 'a', '100%', '50%)', '%d%s', 'x% (y', '%', '{0}', '{'])),
             'badpos': draw(st.integers(0, 2)), 'w': draw(st.sampled_from([None, None, 3]))}
 
 
@@ -277,8 +279,9 @@ def check_case(case, col=None):
     if len(shared) != 1 or type(shared[0]) is not type(nat(p)) or shared[0] != nat(p):
         raise Violation('argument-mutated', 'the pattern list handed to expect() is %r afterwards, it was %r' % (shared, [nat(p)]))
     # --- invalid objects
-    bad = {'int': 7, 'float': 1.5, 'none': None, 'nested': [nat('a')], 'object': object(),
-           'class': ValueError, 'wrongstr': (b'a' if text_mode else None)}[case['bad']]
+    bt = case.get('badtext', 'a')
+    bad = {'int': 7, 'float': 1.5, 'none': None, 'nested': [nat(bt)], 'object': object(),
+           'class': ValueError, 'wrongstr': (bt.encode('ascii') if text_mode else None)}[case['bad']]
     if not (case['bad'] == 'wrongstr' and not text_mode):
         lst = [nat('a'), nat('b')]
         lst.insert(min(case['badpos'], len(lst)), bad)
